@@ -112,6 +112,7 @@ fn main() {
         "held" => held::main(&opts),
         "pipeline" => pipeline::main(&opts),
         "probe-to-value" => typed::probe_to_value(&opts),
+        "probe-messages" => typed::probe_messages(&opts),
         other => {
             eprintln!("unknown module {}", other);
             std::process::exit(64);
